@@ -3,10 +3,10 @@
     built around the bytes the real builder emits (ICMP time-exceeded / unreachable quoting 28 bytes of the probe,
     echo reply, direct TCP SYN-ACK / RST) are recognised by the whole receive path (frame parse, header decode,
     ICMP classification, matcher); likewise for IPv6 (time-exceeded quoting the whole probe, echo reply, UDP errors).
-    PARTIAL: IP options / extension headers, truncated IPv6 quotes, TCP over IPv6 and the SACK forms are
+    PARTIAL: IP options / extension headers, RFC 4884 forms, truncated IPv6 quotes and duplicate ACKs with several SACK blocks are
     covered by the correspondence (independent builders) rather than by a byte-level theorem. *)
 From Coq Require Import List ZArith Bool.
-From TR Require Import Lib.Bytes Wire.Decode Wire.Build Drv.Drivers Spec.C01 Proofs.DrvProofs Proofs.ByteComplete Proofs.ByteComplete6 Eng.Engine Eng.Timed Proofs.EngComplete Proofs.SerialComplete.
+From TR Require Import Lib.Bytes Wire.Decode Wire.Build Drv.Drivers Spec.C01 Proofs.DrvProofs Proofs.ByteComplete Proofs.ByteComplete6 Proofs.ByteCompleteSack Eng.Engine Eng.Timed Proofs.EngComplete Proofs.SerialComplete.
 Import ListNotations.
 Open Scope Z_scope.
 
@@ -114,6 +114,33 @@ Theorem C02_bytes_udp6_icmp_error c st t now s ty co w1 w2 w3 L1 L2 hl0 k1 k2 u1
   = Hop (s_ttl s) router (now - s_time s) (bytes_eqb router (c_target c)).
 Proof. exact (@udp6_icmp_error_recognised c st t now s ty co w1 w2 w3 L1 L2 hl0 k1 k2 u1 u2 u3 u4 router). Qed.
 Print Assumptions C02_bytes_udp6_icmp_error.
+
+(** SACK variant: the duplicate ACK of the target (ACK only; options NOP NOP SACK(left, right)) is the destination hop of the probe whose sequence number is the left edge — for any initial sequence number, incl. across the 2^32 wrap *)
+Theorem C02_bytes_sack_dup_ack c st now s t tos i1 i2 f1 ttl0 c1 c2 q1 q2 q3 q4 a1 a2 a3 a4 w1 w2 k1 k2 g1 g2 r1 r2 r3 r4 l1 l2 l3 l4 t1 t2 t3 t4 :
+  c_variant c = VSack -> c_local c = [l1; l2; l3; l4] -> c_target c = [t1; t2; t3; t4] ->
+  0 <= c_sport c < 65536 -> 0 <= c_dport c < 65536 -> (f1 = 0 \/ f1 = 64) ->
+  0 <= c_init_seq c < 4294967296 -> in_ttl_range c t = true -> 0 <= c_first c -> c_last c <= 255 ->
+  find_ttl st t = Some s ->
+  let left := (c_init_seq c + t) mod 4294967296 in
+  recv c st (hdr4 tos 0 52 i1 i2 f1 0 ttl0 6 c1 c2 t1 t2 t3 t4 l1 l2 l3 l4
+                  ([(c_dport c / 256) mod 256; c_dport c mod 256; (c_sport c / 256) mod 256; c_sport c mod 256; q1; q2; q3; q4; a1; a2; a3; a4;
+                    128; 16; w1; w2; k1; k2; g1; g2;
+                    1; 1; 5; 10; (left / 16777216) mod 256; (left / 65536) mod 256; (left / 256) mod 256; left mod 256; r1; r2; r3; r4])) now
+  = Hop t [t1; t2; t3; t4] (now - s_time s) true.
+Proof. exact (@sack_dup_ack_recognised c st now s t tos i1 i2 f1 ttl0 c1 c2 q1 q2 q3 q4 a1 a2 a3 a4 w1 w2 k1 k2 g1 g2 r1 r2 r3 r4 l1 l2 l3 l4 t1 t2 t3 t4). Qed.
+Print Assumptions C02_bytes_sack_dup_ack.
+
+(** SACK variant: a time-exceeded from ANY router quoting the first 28 bytes of the probe the model builder emits for TTL t (with or without the timestamps option) is the hop for t *)
+Theorem C02_bytes_sack_time_exceeded c st t now s tos i1 i2 f1 ttl0 c1 c2 k1 k2 u1 u2 u3 u4 r1 r2 r3 r4 l1 l2 l3 l4 t1 t2 t3 t4 :
+  c_variant c = VSack -> c_local c = [l1; l2; l3; l4] -> c_target c = [t1; t2; t3; t4] ->
+  0 <= c_sport c < 65536 -> 0 <= c_dport c < 65536 -> (f1 = 0 \/ f1 = 64) ->
+  0 <= c_init_seq c < 4294967296 -> in_ttl_range c t = true -> 0 <= c_first c -> c_last c <= 255 ->
+  find_ttl st t = Some s ->
+  let probe := sack_probe (c_local c) (c_target c) (c_sport c) (c_dport c) (c_init_seq c) (c_init_ack c) (c_has_ts c) (c_tsval c) (c_tsecr c) t in
+  recv c st (hdr4 tos 0 56 i1 i2 f1 0 ttl0 1 c1 c2 r1 r2 r3 r4 l1 l2 l3 l4 ([11; 0; k1; k2; u1; u2; u3; u4] ++ takez 28 probe)) now
+  = Hop t [r1; r2; r3; r4] (now - s_time s) (bytes_eqb [r1; r2; r3; r4] [t1; t2; t3; t4]).
+Proof. exact (@sack_te28_recognised c st t now s tos i1 i2 f1 ttl0 c1 c2 k1 k2 u1 u2 u3 u4 r1 r2 r3 r4 l1 l2 l3 l4 t1 t2 t3 t4). Qed.
+Print Assumptions C02_bytes_sack_time_exceeded.
 
 (** engine lift, ANY script (loss, duplicates, reordering, noise, rogue replies): every reply that is readable by the deadline, for a TTL whose probe was sent, is accepted *)
 Theorem C02_engine_accepts_every_timely_reply p script r :
